@@ -36,7 +36,7 @@ Proof. vm_compute. reflexivity. Qed.
 (* publication, cleanup and notification: for EVERY schedule of the steps of arbitrarily many overlapping
    publications (Start / W / U / R / TL / TR of Model/Publish.v, disabled steps are no-ops) with crashes, plain
    restarts and starts from a savepoint (Rewind: ids of the abandoned timeline are issued again and their files
-   rewritten) anywhere, starting from a storage that holds checkpoint [base] (0 = empty), at EVERY point:
+   rewritten) and failing snapshot writes (WFail) anywhere, starting from a storage that holds checkpoint [base] (0 = empty), at EVERY point:
    - the snapshot file of the newest checkpoint ever written is in storage, and no spawned Remove call names it;
    - LoadCheckpoint on the storage as it is now returns exactly that checkpoint (crash point = now);
    - the retained-id notifications received so far are strictly increasing, name only written checkpoints, and
@@ -112,3 +112,12 @@ Theorem job_starts_from_newest_or_refuses : forall ids fault,
   (ids <> [] /\ (job_start ids fault = None \/ job_start ids fault = Some (Some (list_max ids)))).
 Proof. exact job_start_newest_or_refuse. Qed.
 Print Assumptions job_starts_from_newest_or_refuses.
+
+(* a snapshot write that fails leaves storage, completedSnapshots, pending removals, notifiers and notifications
+   exactly as they were (the publication just disappears) *)
+Theorem write_failure_is_inert : forall q s n,
+  let s' := exec1 q s (WFail n) in
+  files s' = files s /\ completed s' = completed s /\ pend_rm s' = pend_rm s /\ nwait s' = nwait s /\
+  nhold s' = nhold s /\ received s' = received s /\ written s' = written s /\ last s' = last s.
+Proof. exact write_failure_inert_lemma. Qed.
+Print Assumptions write_failure_is_inert.
